@@ -13,7 +13,7 @@ RULE = ("finished elections of every rule on exhaustive small profiles (3 candid
         "with repetition; rounds that record a random tiebreak are exempt from replay equality (statement), purity is still checked; "
         "distinct = canonical (profile, rule, configuration); non-trivial = election with >= 2 recorded rounds beyond round 0 or >=2 ballots")
 
-RULES = ["STV", "STV1", "IRV", "SequentialRCV", "Plurality", "Borda", "TopTwo", "Alaska", "DominatingSets", "CondoBorda", "Rating", "Approval",
+RULES = ["STV", "STV1", "IRV", "SequentialRCV", "Plurality", "Borda", "TopTwo", "Alaska", "Alaska1", "DominatingSets", "CondoBorda", "Rating", "Approval",
          "PluralityVeto"]
 
 
@@ -27,7 +27,7 @@ def cases(tier, seed):
                 if rule in ("Rating", "Approval"):
                     if nb == 3 or i % 4:
                         continue
-                if nb == 3 and rule not in ("STV", "STV1", "IRV", "SequentialRCV", "Alaska"):
+                if nb == 3 and rule not in ("STV", "STV1", "IRV", "SequentialRCV", "Alaska", "Alaska1"):
                     continue
                 if rule == "PluralityVeto" and (nb == 3 or any(len(r) < 3 for r, _ in bl)):
                     continue  # complete ballots only (its termination defect on other profiles is C01's known finding)
@@ -57,6 +57,8 @@ def make(rule, cands, bl, m, tb):
         return E.SequentialRCV(prof, m=m, tiebreak=tb), prof, "fpv"
     if rule == "Alaska":
         return E.Alaska(prof, m_1=max(m, 2), m_2=min(m, 2), tiebreak=tb), prof, "fpv"
+    if rule == "Alaska1":
+        return E.Alaska(prof, m_1=3, m_2=2, simultaneous=False, tiebreak=tb), prof, "fpv"
     if rule in ("Rating", "Approval"):
         prof = PreferenceProfile(ballots=tuple(Ballot(scores={c: 1 for s in r for c in s}, weight=w) for r, w in bl), candidates=tuple(cands))
         return build(rule, prof, m, tb)[0], prof, "scores"
